@@ -3,7 +3,7 @@
    altkeys <rsa-der-hex> <ec-der-hex>
         private keys that do NOT belong to the certificates in use (same type/size): "wrong key" peers
 
-   V <ver 12|13> <role c|s> <cbmode> <cbarg> <ca 0|1> <depth> <rc> <n> (<authStatus> <authFailFlags> <selfsigned 0|1>){n}
+   V <ver 11|12|13|211 (DTLS 1.0)|212 (DTLS 1.2)> <role c|s> <cbmode> <cbarg> <ca 0|1> <depth> <rc> <n> (<authStatus> <authFailFlags> <selfsigned 0|1>){n}
         verdict substitution: a live handshake is driven through the peer's Certificate message; the call the REAL
         parseCertificate / tls13ValidateCertChain makes to matrixValidateCertsExt is answered by a wrapper that
         (1) extends the parsed chain it was given to n certificates (extra certificates are parsed copies of the
@@ -15,6 +15,7 @@
                  C<anon> = handshake completed on both sides (anon = matrixSslGetAnonStatus of the verifying side)
 
    L k=v ...   live handshake with real validation.  keys:
+        dtls=1 (with ver=12: DTLS 1.2, ver=11: DTLS 1.0; datagram transport of sess.h, HelloVerifyRequest round included)
         ver=12|13  suite=<hex>  key=rsa|ec  cauth=0|1  ccb,scb=<cbmode>  carg,sarg=<cbarg>  cca=0|1|2  sca=0|1|2 (CA loaded: no/yes/wrong)
         cid=0|1 (client loads its identity; default = cauth)  ckeys=none (client passes a key structure with nothing loaded)
         year=<yyyy> (calendar moved AFTER the keys are loaded: peer certificates are then expired)
@@ -31,6 +32,10 @@
                             left out of the sender's transcript hash (so its Finished is the one of a peer that never wrote it), the
                             record is taken off the wire and (TLS 1.3) the sender's record sequence number is not advanced for it
         omit=skesig:s       TLS <= 1.2 server sends ServerKeyExchange WITHOUT the signature (params only), hashed as sent
+        preset=nocv         (D)TLS <= 1.2 client, ECDHE suites: right after it has written its (non-empty) Certificate the client forgets that
+                            a certificate matched (ssl->sec.certMatch = 0, set from inside the ClientKeyExchange encoder's call of
+                            psEccX963ExportKey): the honest encoder skips CertificateVerify, so transcript, Finished and DTLS message_seq
+                            are those of a peer that never wrote it
         preset=emptycert    TLS 1.3 client is told it sent an empty Certificate (tls13SentEmptyCertificate) although it sends a real one:
                             the honest encoder then skips CertificateVerify by itself (no wrapper involved)
         resumption offers to a server (see props/C04.py: the requirement "client authentication" must survive them):
@@ -216,11 +221,14 @@ int32_t __wrap_sslUpdateHSHash(ssl_t *ssl, const unsigned char *in, psSize_t len
     if (g_omit.mode && side == g_omit.side && len >= 4 && (ssl == g_s.ssl || ssl == g_c.ssl)) {
         int receiving_cv = ACTV_VER(ssl, v_tls_1_3_any) && ssl->hsState == SSL_HS_TLS_1_3_WAIT_CV;
         if (g_omit.mode == 1 && in[0] == SSL_HS_CERTIFICATE_VERIFY && !receiving_cv) { g_omit.hashskips++; return PS_SUCCESS; }
-        if (g_omit.mode == 2 && in[0] == SSL_HS_SERVER_KEY_EXCHANGE && len > 8 && in[4] == 3 && (size_t) (8 + in[7]) < len) {
-            unsigned char tmp[600]; size_t pl = 4 + (size_t) in[7];           /* curve_type, named_curve, point */
-            if (4 + pl <= sizeof tmp) {
-                tmp[0] = in[0]; tmp[1] = 0; tmp[2] = (unsigned char) (pl >> 8); tmp[3] = (unsigned char) pl; memcpy(tmp + 4, in + 4, pl);
-                g_omit.hashskips++; return __real_sslUpdateHSHash(ssl, tmp, (psSize_t) (4 + pl));
+        size_t hh = (ssl->flags & SSL_FLAGS_DTLS) ? 12 : 4;               /* handshake header: DTLS adds message_seq, fragment offset / length */
+        if (g_omit.mode == 2 && in[0] == SSL_HS_SERVER_KEY_EXCHANGE && len > hh + 4 && in[hh] == 3 && (size_t) (hh + 4 + in[hh + 3]) < len) {
+            unsigned char tmp[600]; size_t pl = 4 + (size_t) in[hh + 3];      /* curve_type, named_curve, point */
+            if (hh + pl <= sizeof tmp) {
+                memcpy(tmp, in, hh); tmp[1] = 0; tmp[2] = (unsigned char) (pl >> 8); tmp[3] = (unsigned char) pl;
+                if (hh == 12) { tmp[6] = tmp[7] = tmp[8] = 0; tmp[9] = 0; tmp[10] = tmp[2]; tmp[11] = tmp[3]; }
+                memcpy(tmp + hh, in + hh, pl);
+                g_omit.hashskips++; return __real_sslUpdateHSHash(ssl, tmp, (psSize_t) (hh + pl));
             }
         }
     }
@@ -251,29 +259,42 @@ int32_t __wrap_tls13EncryptMessage(ssl_t *ssl, flightEncode_t *msg, unsigned cha
 static int omit_wire(int dir)
 {
     queue_t *q = dir ? &g_s2c : &g_c2s; size_t l = q_reclen(q); unsigned char *p = q->b;
-    if (!g_omit.mode || dir != g_omit.side || l < 9) return 0;
+    size_t rh = (size_t) SESS_RHL, hh = g_sdtls ? 12 : 4;
+    if (!g_omit.mode || dir != g_omit.side || l < rh + hh) return 0;
     int sealed = q->m[q->mh % MQ].sealed;
     if (g_omit.mode == 1) {
-        int hit = (g_omit.have_mark && l >= 5 + sizeof g_omit.mark && !memcmp(p + 5, g_omit.mark, sizeof g_omit.mark))     /* TLS 1.3 */
-                  || (p[0] == 22 && !sealed && p[5] == SSL_HS_CERTIFICATE_VERIFY);                                            /* TLS <= 1.2 */
+        int hit = (g_omit.have_mark && l >= rh + sizeof g_omit.mark && !memcmp(p + rh, g_omit.mark, sizeof g_omit.mark))     /* TLS 1.3 */
+                  || (!g_sdtls && p[0] == 22 && !sealed && p[rh] == SSL_HS_CERTIFICATE_VERIFY);                               /* TLS <= 1.2 */
         if (hit) { q_pop(q, l); q_meta_pop(q); g_omit.dropped++; return 1; }
     }
     if (g_omit.mode == 2 && p[0] == 22 && !sealed) {
-        size_t o = 5;
-        while (o + 4 <= l) {
+        size_t o = rh;
+        while (o + hh <= l) {
             size_t ml = ((size_t) p[o + 1] << 16) | ((size_t) p[o + 2] << 8) | p[o + 3];
-            if (o + 4 + ml > l) break;
-            if (p[o] == SSL_HS_SERVER_KEY_EXCHANGE && ml > 4 && p[o + 4] == 3 && 4 + (size_t) p[o + 7] < ml) {
-                size_t pl = 4 + (size_t) p[o + 7], cut = ml - pl;
-                memmove(p + o + 4 + pl, p + o + 4 + ml, q->len - (o + 4 + ml)); q->len -= cut;
+            if (g_sdtls) ml = ((size_t) p[o + 9] << 16) | ((size_t) p[o + 10] << 8) | p[o + 11];      /* this fragment */
+            if (o + hh + ml > l) break;
+            if (p[o] == SSL_HS_SERVER_KEY_EXCHANGE && ml > 4 && p[o + hh] == 3 && 4 + (size_t) p[o + hh + 3] < ml &&
+                (!g_sdtls || (p[o + 6] == 0 && p[o + 7] == 0 && p[o + 8] == 0 && p[o + 1] == p[o + 9] && p[o + 2] == p[o + 10] && p[o + 3] == p[o + 11]))) {
+                size_t pl = 4 + (size_t) p[o + hh + 3], cut = ml - pl;
+                memmove(p + o + hh + pl, p + o + hh + ml, q->len - (o + hh + ml)); q->len -= cut;
                 p[o + 1] = 0; p[o + 2] = (unsigned char) (pl >> 8); p[o + 3] = (unsigned char) pl;
-                size_t rl = l - 5 - cut; p[3] = (unsigned char) (rl >> 8); p[4] = (unsigned char) rl;
+                if (g_sdtls) { p[o + 9] = 0; p[o + 10] = p[o + 2]; p[o + 11] = p[o + 3]; }
+                size_t rl = l - rh - cut; p[rh - 2] = (unsigned char) (rl >> 8); p[rh - 1] = (unsigned char) rl;
                 g_omit.dropped++; return 0;
             }
-            o += 4 + ml;
+            o += hh + ml;
         }
     }
     return 0;
+}
+
+/* preset=nocv: see the header comment */
+static int g_preset_nocv, g_preset_nocv_hits;
+int32_t __real_psEccX963ExportKey(psPool_t *pool, const psEccKey_t *key, unsigned char *out, psSize_t *outlen);
+int32_t __wrap_psEccX963ExportKey(psPool_t *pool, const psEccKey_t *key, unsigned char *out, psSize_t *outlen)
+{
+    if (g_preset_nocv && g_c.ssl && key && key == g_c.ssl->sec.eccKeyPriv && g_c.ssl->sec.certMatch > 0) { g_c.ssl->sec.certMatch = 0; g_preset_nocv_hits++; }
+    return __real_psEccX963ExportKey(pool, key, out, outlen);
 }
 
 static int g_kt_mode;   /* 1: server decrypts the premaster with a key that is not the certificate's */
@@ -291,7 +312,7 @@ typedef struct {
     psCipher16_t suites[8]; int nsuites;
     uint16_t sigalgs[16]; int nsigalgs; uint16_t ssigalgs[16]; int nssigalgs;
     const char *name; uint64_t seed;
-    int keep, ticket, tkey, fakeid;
+    int keep, ticket, tkey, fakeid, dtls;
 } acfg_t;
 
 static int load_keys(sslKeys_t *k, int key, int with_id, int ca, int chain)
@@ -321,8 +342,10 @@ static int auth_new(acfg_t *c)
     memset(&g_c, 0, sizeof g_c); memset(&g_s, 0, sizeof g_s); g_s.is_server = 1;
     memset(g_ilog, 0, sizeof g_ilog);
     if (g_skeys_persist) { matrixSslDeleteKeys(g_skeys_persist); g_skeys_persist = NULL; }
+    g_sdtls = c->dtls ? 1 : 0;
     if (!c->keep) {
         if (g_saved_sid) { matrixSslDeleteSessionId(g_saved_sid); g_saved_sid = NULL; }
+        if (c->dtls) ent_seed(c->seed ^ 0x44544c53);      /* matrixSslOpen draws the DTLS cookie secret */
         matrixSslClose(); if (matrixSslOpen() < 0) return -9;
         g_vtime = 1592222400;
     }
@@ -342,7 +365,9 @@ static int auth_new(acfg_t *c)
     if (matrixSslNewKeys(&g_c.keys, NULL) < 0) return -2;
     if (!c->ckeys_none && (rc = load_keys(g_c.keys, c->key, c->cid, c->cca, 0)) < 0) return rc - 2000;
     memset(&so, 0, sizeof so);
-    if ((rc = matrixSslSessOptsSetServerTlsVersions(&so, v, 1)) < 0) return rc - 3000;
+    int dminor[1] = { c->ver == 11 ? 2 : 3 };
+    if (c->dtls) so.versionFlag = dtls_version_flag(dminor, 1);
+    else if ((rc = matrixSslSessOptsSetServerTlsVersions(&so, v, 1)) < 0) return rc - 3000;
     if (c->nssigalgs && (rc = matrixSslSessOptsSetSigAlgs(&so, c->ssigalgs, (psSize_t) c->nssigalgs)) < 0) return rc - 3500;
     rc = matrixSslNewServerSession(&g_s.ssl, g_s.keys, (c->cauth && g_acb[1].mode) ? acb_server : NULL, &so);
     if (rc < 0) return rc - 4000;
@@ -350,7 +375,8 @@ static int auth_new(acfg_t *c)
         matrixSslSetSessionOption(g_s.ssl, SSL_OPTION_ENABLE_CLIENT_AUTH, NULL);
     if (c->depth && c->cauth) g_s.ssl->validateCertsOpts.max_verify_depth = c->depth;
     memset(&so, 0, sizeof so);
-    if ((rc = matrixSslSessOptsSetClientTlsVersions(&so, v, 1)) < 0) return rc - 5000;
+    if (c->dtls) so.versionFlag = dtls_version_flag(dminor, 1);
+    else if ((rc = matrixSslSessOptsSetClientTlsVersions(&so, v, 1)) < 0) return rc - 5000;
     if (c->nsigalgs && (rc = matrixSslSessOptsSetSigAlgs(&so, c->sigalgs, (psSize_t) c->nsigalgs)) < 0) return rc - 5500;
     if (c->depth) so.validateCertsOpts.max_verify_depth = c->depth;
     if (c->has_vopts) { so.validateCertsOpts.flags = c->vflags; so.validateCertsOpts.mFlags = (uint32_t) c->vmflags; so.validateCertsOpts.nameType = c->vnametype; }
@@ -426,6 +452,7 @@ static void do_live(char **a, int n)
 {
     acfg_t c; memset(&c, 0, sizeof c); c.ver = 12; c.cca = 1; c.sca = 1; c.seed = 1; c.cid = -1;
     int dropdir = -1, dropk = 0; uint16_t rw[16]; int nrw = 0; int preset_empty = 0; int pre = 0, between = 0; char prebuf[64] = "";
+    g_preset_nocv = 0; g_preset_nocv_hits = 0;
     memset(&g_omit, 0, sizeof g_omit);
     memset(&g_pop, 0, sizeof g_pop); g_kt_mode = 0; g_sub.active = 0; memset(g_acb, 0, sizeof g_acb); g_force_hash = 0; g_forced = 0;
     for (int i = 0; i < n; i++) {
@@ -460,7 +487,8 @@ static void do_live(char **a, int n)
         else if (!strcmp(a[i], "between")) between = !strcmp(v, "expire") ? 1 : !strcmp(v, "restart") ? 2 : !strcmp(v, "corrupt") ? 3 : !strcmp(v, "foreignkey") ? 4 : 0;
         else if (!strcmp(a[i], "kt")) g_kt_mode = !strcmp(v, "wrongkey");
         else if (!strcmp(a[i], "omit")) { char *col = strchr(v, ':'); if (col) { *col = 0; g_omit.side = col[1] == 's'; } g_omit.mode = !strcmp(v, "cv") ? 1 : !strcmp(v, "skesig") ? 2 : 0; }
-        else if (!strcmp(a[i], "preset")) preset_empty = !strcmp(v, "emptycert");
+        else if (!strcmp(a[i], "preset")) { preset_empty = !strcmp(v, "emptycert"); g_preset_nocv = !strcmp(v, "nocv"); }
+        else if (!strcmp(a[i], "dtls")) c.dtls = atoi(v);
         else if (!strcmp(a[i], "drop")) { dropdir = (v[0] == 's') ? 1 : 0; char *col = strchr(v, ':'); dropk = col ? atoi(col + 1) : 0; }
         else if (!strcmp(a[i], "pop")) {
             char *col = strchr(v, ':'); if (col) { *col = 0; g_pop.side = col[1] == 's'; }
@@ -505,6 +533,8 @@ static void do_live(char **a, int n)
     if (pre || c.fakeid) printf("%s res=%d", prebuf, g_s.ssl ? (ACTV_VER(g_s.ssl, v_tls_1_3_any) ? (g_s.ssl->sec.tls13UsingPsk ? 1 : 0) : ((g_s.ssl->flags & SSL_FLAGS_RESUMED) ? 1 : 0)) : -1);
     if (g_force_hash) printf(" forced=%d", g_forced);
     if (g_omit.mode) printf(" omit=%d:%d", g_omit.hashskips, g_omit.dropped);
+    if (g_preset_nocv) printf(" nocv=%d", g_preset_nocv_hits);
+    g_preset_nocv = 0;
     memset(&g_omit, 0, sizeof g_omit);
     g_force_hash = 0; g_pin_year = 2020; memset(&g_pop, 0, sizeof g_pop); g_kt_mode = 0;
 }
@@ -515,6 +545,7 @@ static void do_verdict(char **a, int n)
     acfg_t c; memset(&c, 0, sizeof c); c.seed = 1; c.sca = 1; c.cca = 1;
     memset(&g_pop, 0, sizeof g_pop); g_kt_mode = 0; memset(g_acb, 0, sizeof g_acb); memset(&g_sub, 0, sizeof g_sub); memset(&g_omit, 0, sizeof g_omit);
     c.ver = atoi(a[0]); int role = a[1][0] == 's';
+    if (c.ver > 200) { c.dtls = 1; c.ver -= 200; }          /* 212 = DTLS 1.2, 211 = DTLS 1.0 */
     int cbmode = atoi(a[2]), cbarg = atoi(a[3]), ca = atoi(a[4]);
     c.depth = atoi(a[5]); g_sub.rc = atoi(a[6]); g_sub.n = atoi(a[7]);
     if (g_sub.n < 1 || g_sub.n > MAXCH || n < 8 + 3 * g_sub.n) { printf("X:chain"); return; }
@@ -523,6 +554,7 @@ static void do_verdict(char **a, int n)
     if (role) { c.cauth = 1; c.sca = ca; g_acb[1].mode = cbmode; g_acb[1].arg = cbarg; c.cid = 1; }
     else { c.cca = ca; g_acb[0].mode = cbmode; g_acb[0].arg = cbarg; c.cid = ca ? 0 : 1; }   /* a CA-less client must load something */
     if (c.ver == 12) { c.suites[0] = 0xc02f; c.nsuites = 1; }
+    if (c.ver == 11) { c.suites[0] = 0xc013; c.nsuites = 1; }
     int rc = auth_new(&c);
     if (rc != 0) { printf("ss=- val=0 cb=- out=Xnew%d", rc); return; }
     /* when the verifying side is the server and depth was requested, only the server's option is meant */
